@@ -642,7 +642,7 @@ def _structured_cases():
     out.append(("3mf:two-cycle", "3mf", threemf([mesh_obj, comp(2, [1, 3]), comp(3, [2])], [2]), False))
     out.append(("3mf:cycle-with-branches", "3mf", threemf([mesh_obj, comp(2, [1, 1, 3]), comp(3, [1, 2, 2])], [2, 3]), False))
     out.append(("3mf:undefined-object", "3mf", threemf([mesh_obj, comp(2, [1, 77])], [2, 55]), False))
-    depth = 400
+    depth = 150
     out.append(("3mf:chain-of-%d" % depth, "3mf", threemf([mesh_obj] + [comp(k, [k - 1]) for k in range(2, depth)], [depth - 1]), False))
     out.append(("3mf:diamond-10-levels (2^10 instances)", "3mf", threemf([mesh_obj] + [comp(k, [k - 1, k - 1]) for k in range(2, 12)], [11]), False))
 
